@@ -3,14 +3,281 @@
 package main
 
 import (
+	"fmt"
+	"strings"
+
 	"github.com/taskctl/taskctl/internal/vh/common"
 	"github.com/taskctl/taskctl/internal/vrt"
 )
 
-func judgeHooks(sc *Scenario, x *vrt.Execution) []verdict { return nil }
+// ---- C14: execution-context hooks ----
 
-func judgeHandover(sc *Scenario, x *vrt.Execution) []verdict { return nil }
+func hookCtx(name string, upFail bool) CtxCfg {
+	return CtxCfg{Name: name, Up: []string{"up1:" + name, "up2:" + name}, Down: []string{"down:" + name}, Before: []string{"cb:" + name}, After: []string{"ca:" + name}, UpFail: upFail}
+}
 
-func hookUnits(res *common.Result, each func(Scenario, int) bool) bool { return false }
+func svcToken(cmd string) string {
+	// "echo up1:c1" / "echo up2:c1; exit 1" -> up1:c1
+	c := strings.TrimPrefix(cmd, "echo ")
+	if i := strings.Index(c, ";"); i >= 0 {
+		c = c[:i]
+	}
+	return c
+}
 
-func handoverUnits(res *common.Result, each func(Scenario, int) bool) bool { return false }
+// judgeHooks checks the C14 clauses on the event log of one execution.
+func judgeHooks(sc *Scenario, x *vrt.Execution) []verdict {
+	if len(sc.Ctxs) == 0 {
+		return nil
+	}
+	var v []verdict
+	add := func(key, desc string) { v = append(v, verdict{"C14", "C14:" + key, desc}) }
+	ctxOf := map[string]string{}
+	taskOfTok := map[string]string{}
+	for _, t := range sc.Tasks {
+		ctxOf[t.Name] = t.Ctx
+		for _, tok := range append(append(append([]string{}, t.Before...), t.Cmds...), t.After...) {
+			taskOfTok[tok] = t.Name
+		}
+		taskOfTok["cond:"+t.Name] = t.Name
+	}
+	ctxCfg := map[string]CtxCfg{}
+	for _, c := range sc.Ctxs {
+		ctxCfg[c.Name] = c
+	}
+	// per context: positions of up enters/exits, first other event
+	upEnter := map[string]int{}
+	lastUpExit := map[string]int{}
+	downCount := map[string]int{}
+	firstOther := map[string]int{}
+	lastTaskEvent := -1
+	finishCall := -1
+	downPos := map[string]int{}
+	used := map[string]bool{}
+	// per thread sequence of hook/task events between run.call and run.ret
+	type runRec struct {
+		task string
+		seq  []string
+	}
+	cur := map[int]*runRec{}
+	var runs []*runRec
+	pendingSvc := map[int]string{}
+	for i, e := range x.Events {
+		switch e.Kind {
+		case "run.call":
+			r := &runRec{task: e.Arg}
+			cur[e.T] = r
+			runs = append(runs, r)
+			if c := ctxOf[e.Arg]; c != "" {
+				used[c] = true
+			}
+		case "run.ret":
+			parts := strings.Split(e.Arg, "|")
+			if r := cur[e.T]; r != nil {
+				r.seq = append(r.seq, "ret:"+parts[1])
+			}
+			delete(cur, e.T)
+		case "finish.call":
+			finishCall = i
+		case "enter:runServiceCommand":
+			tok := svcToken(e.Arg)
+			pendingSvc[e.T] = tok
+			kind, cname := tok[:strings.Index(tok, ":")], tok[strings.Index(tok, ":")+1:]
+			switch {
+			case strings.HasPrefix(kind, "up"):
+				upEnter[tok]++
+			case kind == "down":
+				downCount[cname]++
+				downPos[cname] = i
+			default:
+				if _, ok := firstOther[cname]; !ok {
+					firstOther[cname] = i
+				}
+				lastTaskEvent = i
+			}
+			if r := cur[e.T]; r != nil {
+				r.seq = append(r.seq, tok)
+			}
+		case "exit:runServiceCommand":
+			tok := pendingSvc[e.T]
+			if strings.HasPrefix(tok, "up") {
+				lastUpExit[tok[strings.Index(tok, ":")+1:]] = i
+			}
+		case "tok":
+			tn := taskOfTok[e.Arg]
+			if c := ctxOf[tn]; c != "" {
+				if _, ok := firstOther[c]; !ok {
+					firstOther[c] = i
+				}
+			}
+			lastTaskEvent = i
+			if r := cur[e.T]; r != nil {
+				r.seq = append(r.seq, "t:"+e.Arg)
+			}
+		}
+	}
+	for cname, c := range ctxCfg {
+		if !used[cname] {
+			if downCount[cname] > 0 || upEnter["up1:"+cname] > 0 {
+				add("unused-context-hooks", fmt.Sprintf("hooks of context %s ran although no task used it", cname))
+			}
+			continue
+		}
+		for _, u := range c.Up {
+			n := upEnter[u]
+			// with a failing up the second command may legitimately be skipped or run: only "at most once"
+			if n > 1 {
+				add("up-twice", fmt.Sprintf("up command %s ran %d times", u, n))
+			}
+			if n == 0 && !c.UpFail {
+				add("up-missing", fmt.Sprintf("up command %s never ran although context %s was used", u, cname))
+			}
+		}
+		if fo, ok := firstOther[cname]; ok {
+			if c.UpFail {
+				add("ran-after-failed-up", fmt.Sprintf("a hook or command of a task in context %s ran (%s) although up failed", cname, x.Events[fo]))
+			} else if le, ok2 := lastUpExit[cname]; !ok2 || le > fo {
+				add("before-up-finished", fmt.Sprintf("%s ran before the up commands of context %s had completed", x.Events[fo], cname))
+			}
+		}
+		if sc.Finish {
+			if downCount[cname] != 1 {
+				add("down-count", fmt.Sprintf("down of used context %s ran %d times", cname, downCount[cname]))
+			} else if downPos[cname] < lastTaskEvent || downPos[cname] < finishCall {
+				add("down-early", fmt.Sprintf("down of context %s ran before the last task event / before shutdown", cname))
+			}
+		}
+	}
+	for _, r := range runs {
+		cname := ctxOf[r.task]
+		if cname == "" {
+			continue
+		}
+		c := ctxCfg[cname]
+		ret := ""
+		var body []string
+		for _, s := range r.seq {
+			if strings.HasPrefix(s, "ret:") {
+				ret = strings.TrimPrefix(s, "ret:")
+			} else if !strings.HasPrefix(s, "up") {
+				body = append(body, s)
+			}
+		}
+		if c.UpFail {
+			if ret != "err" {
+				add("run-ok-after-failed-up", fmt.Sprintf("Run(%s) returned %s although up of its context failed", r.task, ret))
+			}
+			continue
+		}
+		// expected shape: cb, task events..., ca  (each hook exactly once)
+		nb, na := 0, 0
+		firstTask, lastTask, posB, posA := -1, -1, -1, -1
+		for i, s := range body {
+			switch {
+			case s == "cb:"+cname:
+				nb++
+				posB = i
+			case s == "ca:"+cname:
+				na++
+				posA = i
+			case strings.HasPrefix(s, "t:"):
+				if firstTask < 0 {
+					firstTask = i
+				}
+				lastTask = i
+			}
+		}
+		if nb != 1 {
+			add("before-count", fmt.Sprintf("context before-hook ran %d times for one execution of %s: %v", nb, r.task, body))
+		} else if firstTask >= 0 && posB > firstTask {
+			add("before-late", fmt.Sprintf("context before-hook ran after a command of %s: %v", r.task, body))
+		}
+		if na != 1 {
+			add("after-count", fmt.Sprintf("context after-hook ran %d times for one execution of %s: %v", na, r.task, body))
+		} else if posA < lastTask {
+			add("after-early", fmt.Sprintf("context after-hook ran before the last command of %s: %v", r.task, body))
+		}
+	}
+	return v
+}
+
+func hookUnits(res *common.Result, each func(Scenario, int) bool) bool {
+	shapes := []string{"plain", "hooks", "cond", "fail"}
+	mkTask := func(name, shape, ctx string) TaskCfg {
+		t := TaskCfg{Name: name, Cmds: []string{name + ".c1"}, Ctx: ctx, FailAt: -1}
+		switch shape {
+		case "hooks":
+			t.Before, t.After = []string{name + ".b"}, []string{name + ".a"}
+		case "cond":
+			t.Cond = "true"
+		case "fail":
+			t.FailAt = 0
+		}
+		return t
+	}
+	gen := func(nmax int, bound func(n int) int, modes []string) bool {
+		names := []string{"p", "q", "r", "s"}
+		for n := 1; n <= nmax; n++ {
+			for _, mode := range modes {
+				for _, twoCtx := range []bool{false, true} {
+					if twoCtx && n < 2 {
+						continue
+					}
+					for _, upFail := range []bool{false, true} {
+						// task shapes: all tasks the same shape, plus one mixed assignment
+						var assigns [][]string
+						for _, s := range shapes {
+							a := make([]string, n)
+							for i := range a {
+								a[i] = s
+							}
+							assigns = append(assigns, a)
+						}
+						if n >= 2 {
+							mixed := make([]string, n)
+							for i := range mixed {
+								mixed[i] = shapes[(i+1)%len(shapes)]
+							}
+							assigns = append(assigns, mixed)
+						}
+						for _, a := range assigns {
+							sc := Scenario{Mode: mode, Finish: true, Unused: true}
+							sc.Ctxs = []CtxCfg{hookCtx("c1", upFail)}
+							if twoCtx {
+								sc.Ctxs = append(sc.Ctxs, hookCtx("c2", false))
+							}
+							for i := 0; i < n; i++ {
+								cx := "c1"
+								if twoCtx && i%2 == 1 {
+									cx = "c2"
+								}
+								t := mkTask(names[i], a[i], cx)
+								if mode == "pipeline" && i > 0 && i == n-1 && n >= 3 {
+									t.Deps = []string{names[0]}
+								}
+								sc.Tasks = append(sc.Tasks, t)
+							}
+							if each(sc, bound(n)) {
+								return true
+							}
+						}
+					}
+				}
+			}
+		}
+		return true
+	}
+	switch *common.Unit {
+	case "hooks-q":
+		res.Bound = 2
+		theSeam.park = false
+		gen(3, func(n int) int { return map[int]int{1: 2, 2: 1, 3: 0}[n] }, []string{"par", "seq", "pipeline"})
+	case "hooks-t":
+		res.Bound = 3
+		theSeam.park = false
+		gen(4, func(n int) int { return map[int]int{1: 3, 2: 2, 3: 1, 4: 0}[n] }, []string{"par", "seq", "pipeline"})
+	default:
+		return false
+	}
+	return true
+}
